@@ -51,6 +51,7 @@ type UPtr struct{ p Value }
 type Str struct {
 	s     string
 	b     []*Term
+	cat   []Str   // concatenation of byte strings and abstract strings (compared part-wise)
 	tok   *StrTok // abstract structured string (address printed from symbolic bytes)
 	opq   bool  // content unknown (formatted from symbolic operands); only flows into sinks
 	taint uint8 // bitmask of taint sources (C17: client address)
@@ -64,7 +65,7 @@ func (s Str) Len() int {
 }
 
 func (s Str) Concrete() (string, bool) {
-	if s.opq || s.tok != nil {
+	if s.opq || s.tok != nil || s.cat != nil {
 		return "", false
 	}
 	if s.b == nil {
